@@ -119,7 +119,18 @@ func genTrkwire(r *Rng, n int, tier string) []Case {
 					}
 					tid = string(b)
 				}
-				ops = append(ops, fmt.Sprintf("http %s tid=%s base=%s", genTorrentFields(r), tid, []string{"plain", "q"}[r.Intn(2)]))
+				tidx := ""
+				if r.Chance(25) {
+					// a tracker id is an opaque byte string chosen by the tracker
+					b := r.Bytes(r.Range(1, 8))
+					for x := range b {
+						if r.Chance(60) {
+							b[x] = []byte(" &#%+=?/\x00\x01\x7f\xff\n")[r.Intn(13)]
+						}
+					}
+					tid, tidx = "-", " tidx="+hexs(b)
+				}
+				ops = append(ops, fmt.Sprintf("http %s tid=%s%s base=%s", genTorrentFields(r), tid, tidx, []string{"plain", "q"}[r.Intn(2)]))
 			default:
 				urlLen := r.Pick(0, 0, 1, 9, 254, 255, 256, 510, 511, r.Intn(600))
 				u := make([]byte, urlLen)
@@ -170,6 +181,9 @@ func execTrkwire(ops []string) []string {
 			tid := m["tid"]
 			if tid == "-" {
 				tid = ""
+			}
+			if m["tidx"] != "" {
+				tid = string(unhex(m["tidx"]))
 			}
 			var err error
 			if tid != "" {
